@@ -22,6 +22,7 @@ import (
 	"fmt"
 	"io"
 	"math/rand/v2"
+	"os"
 	"runtime"
 	"strconv"
 	"strings"
@@ -587,6 +588,9 @@ func runC01(c *Ctx) {
 	nw := runtime.NumCPU()
 	if nw > 16 {
 		nw = 16
+	}
+	if v, err := strconv.Atoi(os.Getenv("VERIF_WORKERS")); err == nil && v > 0 && v < nw {
+		nw = v // the machine is shared: the caller may cap the number of workers (the inputs do not depend on it)
 	}
 	if nw < 2 {
 		nw = 2
